@@ -628,11 +628,12 @@ def gen_partial(r):
     levels = [[] for _ in range(depth)]
     arrs1, arrs2, scal = ['a'], ['c'], ['k', 'j2']
     scopes = []                     # per level: (arrs1, arrs2, scal) visible in its body
-    nm = iter('w v u t s'.split())
-    sn = iter('kk jj ll mm nn'.split())
+    nm = iter('w v u t s w2 v2 u2'.split())
+    sn = iter('kk jj ll mm nn k3 k4 k5'.split())
     en = iter('e1 e2 e3'.split())
     for lvl in range(depth):
         b = levels[lvl]
+        p_arrs1, p_scal = list(arrs1), list(scal)      # selectors only see names of enclosing levels
         if lvl == 0 or r.random() < 0.3:
             for _ in range(r.choice((1, 1, 2))):
                 q = r.random()
@@ -646,12 +647,12 @@ def gen_partial(r):
         if lvl > 0 or r.random() < 0.5:
             for _ in range(r.choice((1, 1, 2))):
                 n_ = next(sn)
-                b.append((n_, r.choice(scal)))
+                b.append((n_, r.choice(p_scal)))
                 scal = scal + [n_]
         if lvl > 0 and r.random() < 0.4:
             n_ = next(en, None)
             if n_:
-                b.append((n_, '%s(%s)' % (r.choice(arrs1), r.choice(scal + ['1', '2']))))
+                b.append((n_, '%s(%s)' % (r.choice(p_arrs1), r.choice(p_scal + ['1', '2']))))
         scopes.append((list(arrs1), list(arrs2), list(scal), [x for l in levels[:lvl + 1] for x, sl in l if x.startswith('e')]))
 
     def stmts(lvl, ind, n):
@@ -754,10 +755,10 @@ program drv
   end do
   obj%m = 2
   res = 0.0
-  call kern(n, %d, %d, arr3d, res, obj)
+  call kern(n, @K, @J, arr3d, res, obj)
   print *, res
-  print *, obj%%w
-  print *, ((obj%%items(j)%%val(i), i = 1, 4), j = 1, 3)
+  print *, obj%w
+  print *, ((obj%items(j)%val(i), i = 1, 4), j = 1, 3)
 end program drv
 """
 
@@ -770,9 +771,10 @@ def gen_dt_source(r):
     scal, arrs, comps = ['k', 'j2'], [], []     # arrs: 1-d real arrays (index 1..3 ok); comps: things with %val
     refs0 = [lambda I: f'obj%w({I()})', lambda I: f'obj%items({L3()})%val({I()})', lambda I: f'arr3d({I()}, i, {L4()})']
     levels = []
-    sn = iter('kk jj ll mm nn'.split())
+    sn = iter('kk jj ll mm nn k3 k4 k5'.split())
     for lvl in range(depth):
         b = []
+        p_scal = list(scal)
         if lvl == 0 or r.random() < 0.4:
             for _ in range(r.choice((1, 2, 2))):
                 q = r.random()
@@ -793,7 +795,7 @@ def gen_dt_source(r):
         if lvl > 0 or r.random() < 0.6:
             for _ in range(r.choice((1, 1, 2))):
                 n_ = next(sn)
-                b.append((n_, r.choice(scal)))
+                b.append((n_, r.choice(p_scal)))
                 scal = scal + [n_]
         seen, bb = set(), []
         for n_, sl in b:
@@ -927,8 +929,9 @@ def dt_oracle(sd, k, j2, src, run):
     if err is not None and not fails:
         fails.append(f'resolve sd={sd}: gfortran rejects the regenerated source: {str(err)[:200]}')
     if run and not fails:
-        a = _compile_run(full + DT_DRIVER % (k, j2))
-        b = _compile_run(text + DT_DRIVER % (k, j2))
+        drv = DT_DRIVER.replace('@K', str(k)).replace('@J', str(j2))
+        a = _compile_run(full + drv)
+        b = _compile_run(text + drv)
         if a[0] == 'ok' and (b[0] != 'ok' or a[1] != b[1]):
             fails.append(f'resolve sd={sd}: run of the transformed routine differs from the original (k={k}, j2={j2}): '
                          f'{a[1][:120]!r} vs {b[0]} {b[1][:120]!r}')
@@ -1045,7 +1048,7 @@ class C29(Prop):
             except Exception:
                 continue        # frontend / exporter limits on a generated selector
             yield Case([A('c29'), A(mode), sd, prog, inputs], stream='partial-depth', nontrivial=True)
-        for k in range({'quick': 3, 'thorough': 24, 'search': 24}.get(tier, 3)):
+        for k in range({'quick': 3, 'thorough': 12, 'search': 12}.get(tier, 3)):
             r = random.Random(rng.randrange(1 << 30))
             sd, kk, j2, src = gen_dt_source(r)
             yield Case([A('c29s'), A('resolve'), sd, kk, j2, src], stream='derived-type', nontrivial=True)
